@@ -595,6 +595,63 @@ return "".join(vals)
         info["changed"].append("Uses")
     info["value_sites"] = sites
 
+    # ---------------- dataclass schemas (types.py, simple.py, tokfmt.py) -------------
+    from cxxheaderparser import types as TY
+    from cxxheaderparser import simple as SI
+
+    def pyval_lean(v) -> str:
+        if v is None:
+            return ".none"
+        if isinstance(v, bool):
+            return f"(.bool {lbool(v)})"
+        if isinstance(v, int):
+            return f"(.int ({v}))"
+        if isinstance(v, str):
+            return f"(.str {lstr(v)})"
+        if isinstance(v, list):
+            return "(.list [" + ", ".join(pyval_lean(x) for x in v) + "])"
+        if isinstance(v, dict):
+            return "(.dict [" + ", ".join(f"({lstr(str(k))}, {pyval_lean(x)})" for k, x in v.items()) + "])"
+        if dataclasses.is_dataclass(v):
+            return "(.obj " + lstr(type(v).__name__) + " [" + ", ".join(
+                f"({lstr(f.name)}, {pyval_lean(getattr(v, f.name))})" for f in dataclasses.fields(v)) + "])"
+        return ".none"
+
+    classes = []
+    for mod in (TY, SI):
+        for name in sorted(dir(mod)):
+            obj = getattr(mod, name)
+            if isinstance(obj, type) and dataclasses.is_dataclass(obj) and obj not in classes:
+                classes.append(obj)
+    out = []
+    out.append("-- GENERATED by vlib/extract.py from dataclasses.fields of types.py / simple.py — do not edit")
+    out.append("import CxxModel.Repr")
+    out.append("namespace Cxx.Gen")
+    out.append("open Cxx")
+    out.append("def schema : Schema := [")
+    ents = []
+    schema_json = {}
+    for c in classes:
+        fs = []
+        fj = []
+        for f in dataclasses.fields(c):
+            if f.default is not dataclasses.MISSING:
+                d = "(some " + pyval_lean(f.default) + ")"
+            elif f.default_factory is not dataclasses.MISSING:
+                d = "(some " + pyval_lean(f.default_factory()) + ")"
+            else:
+                d = "none"
+            fs.append(f"    {{ name := {lstr(f.name)}, repr := {lbool(f.repr)}, compare := {lbool(f.compare)}, default := {d} }}")
+            fj.append(f.name)
+        ents.append(f"  ({lstr(c.__name__)}, [\n" + ",\n".join(fs) + "])")
+        schema_json[c.__name__] = fj
+    out.append(",\n".join(ents))
+    out.append("]")
+    out.append("end Cxx.Gen")
+    if write_if_changed(os.path.join(outdir, "Schema.lean"), "\n".join(out) + "\n"):
+        info["changed"].append("Schema")
+    info["schema"] = schema_json
+
     # ---------------- function fingerprints (for change-triggered escalation) ----
     fps = {}
     for fname in sorted(os.listdir(pkgdir)):
